@@ -315,7 +315,11 @@ def replay_time(v, unit, times):
         df = pd.DataFrame({"t": vals})
         fn = os.path.join(d, "t.parq")
         fastparquet.write(fn, df, times=times)
-        out = fastparquet.ParquetFile(fn).to_pandas()["t"]
+        try:
+            out = fastparquet.ParquetFile(fn).to_pandas()["t"]
+        except Exception as ex:
+            return True, "datetime64[%s] column written with times=%r cannot be read back: %s: %s" % (
+                unit, times, type(ex).__name__, str(ex)[:100])
         a = out.values.astype("M8[ns]").view("int64").tolist()
         b = df["t"].values.astype("M8[ns]").view("int64").tolist()
         if a != b:
